@@ -8,7 +8,11 @@ Open Scope Z_scope.
    invariant [stores_wf] — which admits every height difference headerfs
    itself admits: filter store level with or below the block store — for
    every chain parameter set, file start height, file length, write batch
-   size, overlap, corruption of the file and injected write/rollback failure:
+   size, overlap, corruption of the file, injected write/rollback failure and
+   EVERY point at which the context handed to Import is cancelled ([fl_cancel]:
+   the poll of the context, counted over the validators' per-batch polls and
+   the per-batch polls of the append loops, from which it reports
+   cancellation; 0 = never):
 
    whatever Import returns,
    - the stores again satisfy the invariant: both ChainTips readable at the
@@ -25,12 +29,18 @@ Open Scope Z_scope.
      carries the required difficulty, a timestamp above the median time past
      and sufficient proof of work), so do the block headers afterwards, and
      every filter header added agrees with the filter header checkpoints;
+   - if the cancelled context cut the validation short (the validators return
+     nil without validating once they see the cancellation), the stores are
+     exactly as before;
    if Import reports success,
    - both stores hold exactly their earlier contents extended by the file's
      headers up to the file's last height (block store ahead: the filter
-     store catches up from the file, then both are extended), and
-   - (the earlier block headers forming a valid chain) repeating the import,
-     under any injected faults, succeeds and changes nothing.
+     store catches up from the file, then both are extended),
+   - repeating the import, under any injected faults and any cancellation,
+     changes nothing, and
+   - unless the validation was cut short (success is then reported only when
+     nothing was left to write, see C14_success_is_live), and the earlier
+     block headers forming a valid chain: repeating the import succeeds.
 
    Hypotheses: the store invariant; start height >= 0; the token form of hash
    collision freedom (distinct positions of old contents + file part above
@@ -52,13 +62,43 @@ Theorem C14_import : forall P s b f bs fl r s',
      (length (bfile s') = length (bfile s) \/ length (bfile s') = length (ffile s'))) /\
   (valid_chain P (bfile s) -> valid_chain P (bfile s')) /\
   validate_filters_from P (skipn (length (ffile s)) (ffile s')) (Z.of_nat (length (ffile s))) = true /\
+  (cancelled_in_validation P s b f bs fl = true -> s' = s) /\
   (r = Success ->
      bfile s' = extend (bfile s) (hz (b_start b)) (bs_hdrs b) /\
      ffile s' = extend (ffile s) (hz (b_start b)) (fs_hdrs f) /\
      hz (b_end b) < Z.of_nat (length (ffile s')) /\
-     (valid_chain P (bfile s) -> forall fl', import P s' b f bs fl' = (Success, s'))).
+     (forall fl', snd (import P s' b f bs fl') = s') /\
+     (cancelled_in_validation P s b f bs fl = false -> valid_chain P (bfile s) ->
+        forall fl', import P s' b f bs fl' = (Success, s'))).
 Proof. exact import_full. Qed.
 Print Assumptions C14_import.
+
+(* A context that is never cancelled never cuts the validation short: for
+   [fl_cancel fl = 0] C14_import is the statement about the import under a
+   live context, with unconditional idempotence. *)
+Theorem C14_never_cancelled : forall P s b f bs fl,
+  fl_cancel fl = 0 -> cancelled_in_validation P s b f bs fl = false.
+Proof. exact never_cancelled. Qed.
+Print Assumptions C14_never_cancelled.
+
+(* The validators swallow a cancellation (return nil without validating);
+   what keeps unvalidated headers out of the stores is that every later poll
+   of the context, in particular the one before each batch is written, sees
+   the cancellation too.  No hypotheses: whatever the stores and the file,
+   a validation cut short is never followed by a write. *)
+Theorem C14_validation_cut_short_writes_nothing : forall P s b f bs fl,
+  cancelled_in_validation P s b f bs fl = true -> snd (import P s b f bs fl) = s.
+Proof. exact cut_short_writes_nothing. Qed.
+Print Assumptions C14_validation_cut_short_writes_nothing.
+
+(* Success is reported only if no poll of the append loops saw a
+   cancellation; a success whose validation was not cut short is exactly the
+   outcome of the same import under a context that is never cancelled. *)
+Theorem C14_success_is_live : forall P s b f bs fl s',
+  import P s b f bs fl = (Success, s') -> cancelled_in_validation P s b f bs fl = false ->
+  import P s b f bs (mkF (fl_bw fl) (fl_fw fl) (fl_rb fl) 0) = (Success, s').
+Proof. exact import_success_live. Qed.
+Print Assumptions C14_success_is_live.
 
 (* What the block header validator establishes: every two adjacent headers of
    the file pass the pair validation (at whatever batch boundaries), and so
@@ -107,9 +147,9 @@ Example C14_nonvacuous :
   stores_wf ex_s /\ 0 <= hz (b_start ex_b) /\
   NoDup (map hid (extend (bfile ex_s) (hz (b_start ex_b)) (bs_hdrs ex_b))) /\
   hash_inj (bfile ex_s ++ bs_hdrs ex_b) /\ retarget_ok ex_P /\ valid_chain ex_P (bfile ex_s) /\
-  (let '(r, s') := import ex_P ex_s ex_b ex_f 2 (mkF 0 0 false) in
+  (let '(r, s') := import ex_P ex_s ex_b ex_f 2 (mkF 0 0 false 0) in
    (r, map hid (bfile s'), ffile s')) = (Success, [1; 2; 3; 4; 5; 6], [10; 11; 12; 13; 14; 15]) /\
-  (let '(r, s') := import ex_P ex_s ex_b ex_f 2 (mkF 0 2 false) in
+  (let '(r, s') := import ex_P ex_s ex_b ex_f 2 (mkF 0 2 false 0) in
    (r, map hid (bfile s'), ffile s')) = (Failure, [1; 2; 3; 4; 5], [10; 11; 12; 13; 14]).
 Proof.
   split.
@@ -136,6 +176,43 @@ Proof.
   split; vm_compute; reflexivity.
 Qed.
 
+(* Cancellation: the same import (3 + 3 validator polls with batch size 2,
+   then polls 7, 8 before the two batches and 9 before the loop finds the
+   region exhausted).  Cancelled on entry or anywhere in validation: failure,
+   stores untouched, validation cut short; at poll 8: failure after the first
+   batch; at poll 9: failure with everything written; at poll 10 (never
+   reached): success.  With a file whose header at height 4 does not link
+   (hprev 77), cancelled on entry: the validators skip it, the append loop
+   stops before writing; under a live context it is rejected.  A file lying
+   within the stores that agrees with them at its first and last height only,
+   cancelled on entry: success without validation, nothing
+   written. *)
+Definition ex_run (b : bsource) (f : fsource) (n : Z) :=
+  let '(r, s') := import ex_P ex_s b f 2 (mkF 0 0 false n) in
+  (r, map hid (bfile s'), ffile s', cancelled_in_validation ex_P ex_s b f 2 (mkF 0 0 false n)).
+Definition ex_bad : bsource :=
+  mkBS (mkM 7 0 0 (Ht 1) 0) [ex_h 2; ex_h 3; H 4 77 545259519 3400 5; ex_h 5; ex_h 6].
+Definition ex_in : bsource := mkBS (mkM 7 0 0 (Ht 0) 0) [ex_h 1; H 9 9 0 0 9; ex_h 3].
+Definition ex_fin : fsource := mkFS (mkM 7 0 1 (Ht 0) 0) [10; 99; 12].
+
+Example C14_nonvacuous_cancel :
+  map (ex_run ex_b ex_f) [1; 4; 6; 7; 8; 9; 10] =
+    [(Failure, [1; 2; 3], [10; 11; 12], true);
+     (Failure, [1; 2; 3], [10; 11; 12], true);
+     (Failure, [1; 2; 3], [10; 11; 12], true);
+     (Failure, [1; 2; 3], [10; 11; 12], false);
+     (Failure, [1; 2; 3; 4; 5], [10; 11; 12; 13; 14], false);
+     (Failure, [1; 2; 3; 4; 5; 6], [10; 11; 12; 13; 14; 15], false);
+     (Success, [1; 2; 3; 4; 5; 6], [10; 11; 12; 13; 14; 15], false)] /\
+  map (ex_run ex_bad ex_f) [1; 2; 0] =
+    [(Failure, [1; 2; 3], [10; 11; 12], true);
+     (Failure, [1; 2; 3], [10; 11; 12], true);
+     (Failure, [1; 2; 3], [10; 11; 12], false)] /\
+  map (ex_run ex_in ex_fin) [1; 0] =
+    [(Success, [1; 2; 3], [10; 11; 12], true);
+     (Failure, [1; 2; 3], [10; 11; 12], false)].
+Proof. vm_compute. repeat split. Qed.
+
 (* Block store ahead of the filter store (blocks 0..2, filters 0..1; the
    usual state of a node whose filter header sync lags): the same file first
    lets the filter store catch up at height 2 (filter-only batch carrying
@@ -149,12 +226,12 @@ Definition ex_f2 : fsource := mkFS (mkM 7 0 1 (Ht 1) 0) [11; 12].
 
 Example C14_nonvacuous_block_ahead :
   stores_wf ex_s_ahead /\ (length (ffile ex_s_ahead) < length (bfile ex_s_ahead))%nat /\
-  (let '(r, s') := import ex_P ex_s_ahead ex_b ex_f 2 (mkF 0 0 false) in
+  (let '(r, s') := import ex_P ex_s_ahead ex_b ex_f 2 (mkF 0 0 false 0) in
    (r, map hid (bfile s'), ffile s', f_chaintip s')) =
      (Success, [1; 2; 3; 4; 5; 6], [10; 11; 12; 13; 14; 15], Some (15, Ht 5)) /\
-  (let '(r, s') := import ex_P ex_s_ahead ex_b2 ex_f2 2 (mkF 0 0 false) in
+  (let '(r, s') := import ex_P ex_s_ahead ex_b2 ex_f2 2 (mkF 0 0 false 0) in
    (r, map hid (bfile s'), ffile s', f_chaintip s')) = (Success, [1; 2; 3], [10; 11; 12], Some (12, Ht 2)) /\
-  (let '(r, s') := import ex_P ex_s_ahead ex_b ex_f 2 (mkF 0 2 false) in
+  (let '(r, s') := import ex_P ex_s_ahead ex_b ex_f 2 (mkF 0 2 false 0) in
    (r, map hid (bfile s'), ffile s', f_chaintip s')) = (Failure, [1; 2; 3], [10; 11; 12], Some (12, Ht 2)).
 Proof.
   split.
